@@ -34,7 +34,8 @@ SPEC = dict(
                   '+ source-regenerated methods (equality with the hand model proved for all inputs) and arithmetic lemmas'),
     translators=[('tvm_bitarray.py/builder.py capacity tests->Generated/Capacity.lean', arith.regenerator('Capacity')),
                  ('builder.py/tvm_bitarray.py store_* methods->Generated/BuilderOps.lean', bsops.regenerator('BuilderOps')),
-                 ('slice.py/tvm_bitarray.py load_*/preload_* methods->Generated/SliceOps.lean', bsops.regenerator('SliceOps'))],
+                 ('slice.py/tvm_bitarray.py load_*/preload_* methods->Generated/SliceOps.lean', bsops.regenerator('SliceOps')),
+                 ('builder.py snake store->Generated/SnakeOps.lean', bsops.regenerator('SnakeOps'))],
     design_ref='DESIGN.md §6 C07',
     rule='builder histories at every fill level (0,1,1015..1023 bits x 0..4 refs) mixing fitting, overflowing and out-of-range stores '
          '(ints, var-ints, bits, bytes, refs, maybe-refs, cells, partly consumed slices, addresses, snake strings); each op must succeed iff '
@@ -259,6 +260,15 @@ def src_search_methods(ctx):
                 continue
             done.add((ub, ur, tok))
             history(ctx, dag, cells, ub, ur, 0, ops=[tok])
+        if len(ctx.failures) > n0:
+            return True
+    # the regenerated snake store (Generated/SnakeOps.lean) vs the hand model: the differing store as a one-operation history
+    sdone = set()
+    for (fb, fr, toks), idx in bsops.diff_scripts(ctx, 'B', bsops.snake_builder_scripts(), snake=True):
+        for i in idx:
+            if i == 0 and (fb, fr, toks[i]) not in sdone and len(sdone) < 60:
+                sdone.add((fb, fr, toks[i]))
+                history(ctx, dag, cells, fb, fr, 0, ops=[toks[i]])
         if len(ctx.failures) > n0:
             return True
     reads = set()
